@@ -207,6 +207,33 @@ pub fn cases(rng: &mut Rng, tier: &str) -> (Vec<Case>, bool) {
             cases.push(Case { ops, checks, tag: "reply-as-typed".into(), nontrivial: true, show: format!("INPUT {} answered {:?}", target, reply) });
         }
     }
+    // the line a program was interrupted in (by a break request at a prompt, while running, or by a STOP) is deleted, or another
+    // line is, and then CONT is submitted: an error message, never a trap
+    for prog in [&["10 INPUT A", "20 PRINT A", "30 GOTO 10"][..], &["10 PRINT 1", "20 STOP", "30 PRINT 3"][..], &["10 GOTO 10"][..], &["10 GOSUB 100", "20 END", "100 INPUT Q", "110 RETURN"][..]] {
+        for which in [0usize, 1, 2] {
+            let mut ops = vec!["wnew".to_string(), "wseed 3".to_string(), "wsubmit".to_string()];
+            for l in prog.iter() {
+                ops.push(ev("wsubmit", l));
+            }
+            ops.push(ev("wsubmit", "RUN"));
+            for _ in 0..4 {
+                ops.push("wtick".to_string());
+            }
+            ops.push("wbreak".to_string());
+            ops.push("wtick".to_string());
+            // delete: every line in turn (one of them is the line of the break), or none
+            let victim = if which < prog.len() { prog[which].split(' ').next().unwrap().to_string() } else { "99".to_string() };
+            ops.push(ev("wsubmit", &victim));
+            ops.push(ev("wsubmit", "CONT"));
+            for _ in 0..4 {
+                ops.push("wtick".to_string());
+            }
+            ops.push(ev("wsubmit", "5"));
+            ops.push("wtick".to_string());
+            let checks = (0..ops.len()).filter(|i| ops[*i].starts_with("wsubmit") || ops[*i] == "wtick" || ops[*i] == "wbreak").map(|i| format!("web-ok {}", i)).collect();
+            cases.push(Case { ops, checks, tag: "delete-interrupted-line-then-cont".into(), nontrivial: true, show: format!("{} || break, delete {}, CONT", prog.join(" | "), victim) });
+        }
+    }
     // NEW then a fixed probe session, against the same probes on a fresh page
     let m = if tier == "thorough" { 300 } else { 40 };
     for _ in 0..m {
